@@ -13,8 +13,8 @@ type bigSym struct {
 }
 
 func (e *Exec) bigSetStringSym(z *PtrV, s *StrV, base int) Value {
-	if base != 10 {
-		panic(e.unsupported("big.Int.SetString symbolic with base != 10"))
+	if base != 10 && base != 0 {
+		panic(e.unsupported("big.Int.SetString symbolic with base other than 10 or 0"))
 	}
 	tb := e.tb
 	bs := e.strBytes(s)
@@ -22,6 +22,9 @@ func (e *Exec) bigSetStringSym(z *PtrV, s *StrV, base int) Value {
 		return &TupleV{E: []Value{&PtrV{}, tb.False()}}
 	}
 	isDigit := func(c *Term) *Term { return tb.And(tb.Ule(tb.Const(8, '0'), c), tb.Ule(c, tb.Const(8, '9'))) }
+	if base == 0 {
+		return e.bigSetStringBase0(z, bs, isDigit)
+	}
 	sign := tb.Or(tb.Eq(bs[0], tb.Const(8, '+')), tb.Eq(bs[0], tb.Const(8, '-')))
 	valid := tb.True()
 	for i, c := range bs {
@@ -65,4 +68,56 @@ func (e *Exec) bigTextSym(b *bigSym, base int) Value {
 		return e.mkString(append([]*Term{e.tb.Const(8, '-')}, b.hexDigits...))
 	}
 	return e.mkString(append([]*Term{}, b.hexDigits...))
+}
+
+// base 0 (prefix-selected base, documented for SetString): "0x"/"0b"/"0o" prefixes select
+// hexadecimal / binary / octal, a leading "0" alone selects octal, underscores may separate
+// digits.  Modelled exactly for texts without prefix letters and underscores (leading zero =>
+// only octal digits are valid); texts with a prefix letter or underscore: validity left open.
+func (e *Exec) bigSetStringBase0(z *PtrV, bs []*Term, isDigit func(*Term) *Term) Value {
+	tb := e.tb
+	start := 0
+	sign := tb.Or(tb.Eq(bs[0], tb.Const(8, '+')), tb.Eq(bs[0], tb.Const(8, '-')))
+	if len(bs) > 1 && e.branch(sign, "big.SetString-sign") {
+		start = 1
+	}
+	rest := bs[start:]
+	special := tb.False()
+	for _, c := range rest {
+		for _, k := range []byte("xXbBoO_") {
+			special = tb.Or(special, tb.Eq(c, tb.Const(8, uint64(k))))
+		}
+	}
+	var valid *Term
+	if !special.IsFalse() && e.branch(special, "big.SetString-prefix-or-underscore") {
+		valid = e.freshVar("big_base0_valid", 0)
+	} else {
+		valid = tb.True()
+		for _, c := range rest {
+			valid = tb.And(valid, isDigit(c))
+		}
+		if len(rest) > 1 {
+			octal := tb.True()
+			for _, c := range rest[1:] {
+				octal = tb.And(octal, tb.Ule(c, tb.Const(8, '7')))
+			}
+			valid = tb.And(valid, tb.Implies(tb.Eq(rest[0], tb.Const(8, '0')), octal))
+		}
+	}
+	if !e.branch(valid, "big.SetString-valid") {
+		return &TupleV{E: []Value{&PtrV{}, tb.False()}}
+	}
+	h := int(e.caseVal("hexlen"))
+	ds := make([]*Term, h)
+	for i := range ds {
+		d := e.freshVar("bighex", 8)
+		ds[i] = d
+		e.addPCKind(tb.Or(isDigit(d), tb.And(tb.Ule(tb.Const(8, 'a'), d), tb.Ule(d, tb.Const(8, 'f')))), 'a')
+		if i == 0 && h > 1 {
+			e.addPCKind(tb.Ne(d, tb.Const(8, '0')), 'a')
+		}
+	}
+	e.bigInts[z.c] = &bigVal{sym: &bigSym{hexDigits: ds, negative: tb.Eq(bs[0], tb.Const(8, '-'))}}
+	e.opaque["lastbig"] = e.bigInts[z.c].sym
+	return &TupleV{E: []Value{z, tb.True()}}
 }
